@@ -121,11 +121,4 @@ fn remove_erased<T: 'static>(op: usize, how: usize, drop: bool) {
     core::mem::forget(v);
 }
 
-h!(remove_drop_e8, remove_erased::<E8>(OP_REMOVE, SINK_DROP, true));
-h!(remove_move_e8, remove_erased::<E8>(OP_REMOVE, SINK_MOVE, true));
-h!(remove_forget_e8, remove_erased::<E8>(OP_REMOVE, SINK_FORGET, true));
-h!(remove_downcast_e8, remove_erased::<E8>(OP_REMOVE, SINK_DOWNCAST, false));
-h!(swap_remove_drop_e8, remove_erased::<E8>(OP_SWAP_REMOVE, SINK_DROP, true));
-h!(swap_remove_move_e8, remove_erased::<E8>(OP_SWAP_REMOVE, SINK_MOVE, true));
-h!(pop_drop_e8, remove_erased::<E8>(OP_POP, SINK_DROP, true));
-h!(pop_move_e8, remove_erased::<E8>(OP_POP, SINK_MOVE, true));
+include!("k2_remove.inst.rs");
